@@ -201,6 +201,6 @@ func c06SpecLeg(c *core.Ctx) {
 	core.RunLeg(c, core.Leg[specCase]{
 		Name: "Q", Kind: "correspondence(specification vs Go's regexp)",
 		Rule: "random ASTs of the C01 fragment restricted to the syntax Go's regexp shares (literals, classes, dot, shorthands, ^ $ \\A \\z \\b \\B, alternation, capturing groups, greedy and lazy quantifiers on non-nullable non-quantifier bodies), RE2 dialect, options from {i,m,s}; 8 pattern-directed inputs per AST; Lean Spec.find on the AST, reduced to the last capture of every group, vs regexp.FindStringSubmatchIndex of the same pattern (options as a leading flag group), byte offsets converted to runes; patterns regexp rejects are skipped; non-trivial = AST has >1 node and input non-empty",
-		N: c.N(3000, 200000), Gen: st.next, Check: c06SpecCheck, Batch: 3000,
+		N:    c.N(3000, 200000), Gen: st.next, Check: c06SpecCheck, Batch: 3000,
 	})
 }
